@@ -30,9 +30,27 @@ def _narrow(ctx, fi, node, var, classes):
     par = ctx.parents(fi)
     cur = node
     out = list(classes)
+    def _isinstance_classes(sub):
+        t = ctx.t.expr_type(sub.args[1], fi)
+        cs = set(type_classes(t[1])) if t and t[0] == 'type' else set()
+        if not cs and isinstance(sub.args[1], ast.Tuple):
+            for e in sub.args[1].elts:
+                t2 = ctx.t.expr_type(e, fi)
+                if t2 and t2[0] == 'type':
+                    cs |= set(type_classes(t2[1]))
+        return cs
     while cur is not None:
         p = par.get(id(cur))
-        if isinstance(p, ast.If):
+        if isinstance(p, ast.BoolOp) and isinstance(p.op, ast.And):
+            # `isinstance(x, C) and x.attr ...`: operands to the left hold when this one is evaluated
+            for v in p.values:
+                if v is cur:
+                    break
+                if isinstance(v, ast.Call) and isinstance(v.func, ast.Name) and v.func.id == 'isinstance' and len(v.args) == 2 and norm(v.args[0]) == var:
+                    cs = _isinstance_classes(v)
+                    if cs:
+                        out = [c for c in out if c in cs]
+        if isinstance(p, ast.If) and cur is not p.test:
             for sub in ast.walk(p.test):
                 if isinstance(sub, ast.Call) and isinstance(sub.func, ast.Name) and sub.func.id == 'isinstance' and \
                         len(sub.args) == 2 and norm(sub.args[0]) == var:
@@ -474,8 +492,14 @@ def str_tool(ctx):
                           % sorted(bad)))
             if level == 1 and isinstance(pv, strdom.S):
                 # length of the renumbered base name: prefix + the digits of the largest number that can be formatted
-                mx = _max_collision_number(ctx, fi)
                 key2 = '%s|level 1|is_dir %s|renumbered length' % (fi.qual, is_dir)
+                var = _variable_width(ctx, fi)
+                if var is not None:
+                    # '%s%0*d' % (prefix, W, n) with prefix = base[:K - W]: the name is K characters as long as n < 10 ** W
+                    ok2, why2 = var
+                    obs.append(Ob('SA-STR.tool', key2, ok2, ctx.loc(fi, fi.node), why2))
+                    continue
+                mx = _max_collision_number(ctx, fi)
                 if mx is None:
                     obs.append(Ob('SA-STR.tool', key2, False, ctx.loc(fi, fi.node),
                                   'the collision counter has no recognisable upper bound: the renumbered name grows without limit'))
@@ -488,6 +512,45 @@ def str_tool(ctx):
                                   '%s characters, the level-1 limit for the base name is 8 - the library refuses the name the tool derived'
                                   % (pv.hi, mx, digits, total)))
     return obs
+
+
+def _variable_width(ctx, fi):
+    """The renumbered name is built with a width that is itself a variable: `'%s%0*d' % (prefix, W, n)`.  Returns None if
+    that is not the form used, else (ok, why): ok iff the prefix is cut as `base[:K - W]` with a constant K <= 8, the same
+    W, and the counter never has more than W digits (it is reset, or the search given up, when `n == 10 ** W`)."""
+    from .fmtstr import DIRECTIVE
+    for n in ctx.own_nodes(fi):
+        if not (isinstance(n, ast.BinOp) and isinstance(n.op, ast.Mod) and isinstance(n.left, ast.Constant) and isinstance(n.left.value, str) and
+                isinstance(n.right, ast.Tuple)):
+            continue
+        args = list(n.right.elts)
+        i = 0
+        for m in DIRECTIVE.finditer(n.left.value):
+            if m.group('c') == '%':
+                continue
+            star = (m.group('w') == '*') or (m.group('p') == '*')
+            if m.group('c') in 'di' and star and i + 1 < len(args) and isinstance(args[i], ast.Name) and isinstance(args[i + 1], ast.Name):
+                W, cnt = args[i].id, args[i + 1].id
+                pre = args[0].id if isinstance(args[0], ast.Name) else None
+                cuts = [x for x in ctx.own_nodes(fi) if isinstance(x, ast.Assign) and len(x.targets) == 1 and isinstance(x.targets[0], ast.Name) and
+                        x.targets[0].id == pre and isinstance(x.value, ast.Subscript) and isinstance(x.value.slice, ast.Slice) and x.value.slice.lower is None]
+                if not pre or len(cuts) != 1:
+                    return False, 'the prefix of the renumbered name is not cut by one slice `base[:K - %s]`' % W
+                up = cuts[0].value.slice.upper
+                K = None
+                if isinstance(up, ast.BinOp) and isinstance(up.op, ast.Sub) and isinstance(up.left, ast.Constant) and isinstance(up.right, ast.Name) and up.right.id == W:
+                    K = up.left.value
+                if K is None or not isinstance(K, int) or K > 8:
+                    return False, 'the prefix is cut to `%s` characters and the number is padded to %s digits: together they are not bounded by the level-1 limit of 8' % (norm(up), W)
+                caps = [x for x in ctx.own_nodes(fi) if isinstance(x, ast.If) and isinstance(x.test, ast.Compare) and len(x.test.ops) == 1 and
+                        isinstance(x.test.ops[0], (ast.Eq, ast.GtE)) and norm(x.test.left) == cnt and norm(x.test.comparators[0]) == '10 ** %s' % W]
+                if not caps:
+                    return False, 'nothing keeps the counter `%s` below 10 ** %s: once it has more digits than the padding the renumbered name is longer than %d' % (cnt, W, K)
+                resets = any(isinstance(y, ast.Return) or (isinstance(y, ast.Assign) and any(norm(t) == cnt for t in y.targets) and isinstance(y.value, ast.Constant))
+                             for x in caps for st in x.body for y in ast.walk(st))
+                return (True, '') if resets else (False, 'the test `%s == 10 ** %s` neither resets the counter nor gives up' % (cnt, W))
+            i += 1 + (m.group('w') == '*') + (m.group('p') == '*')
+    return None
 
 
 def _numbered_format(ctx, fi):
